@@ -133,7 +133,7 @@ def scopes(ctx):
     if is_sure:
         ctx.check(k0, "a standard intrinsic function name is not recognised as intrinsic")
     has_nonletter = api.disj([api.char_in(ch, "_") for ch in name])
-    if ctx.holds(has_nonletter):
+    if has_nonletter:        # the oracle forks on its own classification
         ctx.check(not k0, "a name that cannot be an intrinsic is classified as intrinsic")
     # ---- the program under test
     C.reset()
